@@ -117,9 +117,15 @@ class RGBLed:
         for index in range(1, steps + 1):
             interpolated = []
             for current, goal in zip(start, target):
-                delta = goal - current
-                value = current + (delta * index) / steps
-                interpolated.append(int(round(value)))
+                # Round half away from zero in integer arithmetic, exactly as the
+                # generated firmware does (round() would round ties to even).
+                numerator = (goal - current) * index
+                half = steps // 2
+                if numerator >= 0:
+                    offset = (numerator + half) // steps
+                else:
+                    offset = -((-numerator + half) // steps)
+                interpolated.append(current + offset)
             self.set_color(*interpolated)
             if index != steps:
                 _sleep(step_delay)
